@@ -69,3 +69,7 @@ def declare(reg):
     b7 = reg.properties.setdefault("C07", {}).setdefault("bounded", [])
     b7.append({"name": "quote-string-exhaustive", "module": "harness.fetchdata", "func": "QuoteString"})
     b7.append({"name": "envelope-strings-round-trip", "module": "harness.fetchdata", "func": "EnvelopeStrings"})
+    reg.properties.setdefault("C07", {}).setdefault("bounded", []).append(
+        {"name": "responses-tokenise-rfc3501", "module": "harness.fetchdata", "func": "ResponseGrammar"})
+    reg.properties.setdefault("C16", {}).setdefault("bounded", []).append(
+        {"name": "append-round-trip", "module": "harness.fetchdata", "func": "AppendRoundTrip"})
